@@ -10,7 +10,13 @@ for d in /verif/seeded/*/; do
   feat=""; grep -q "verif::" $d/demo_seeded.rs && feat="--features verif"
   git checkout -q -- . ; rm -f crates/axmos-db/tests/demo_seeded.rs
   git apply $d/patch.diff || { echo "$n: PATCH DOES NOT APPLY"; continue; }
-  suite=$(cargo nextest run --workspace --no-fail-fast --test-threads 8 --offline 2>&1 | grep -E "tests run" | tail -1)
+  suite=""
+  for try in 1 2 3; do  # tree::tests share /tmp/axmos.log and flake under load: a failure must repeat to count
+    out=$(cargo nextest run --workspace --no-fail-fast --test-threads 8 --offline 2>&1)
+    suite="$(echo "$out" | grep -E "tests run" | tail -1) $(echo "$out" | grep -E "^ +FAIL \[" | sed 's/.*axmosdb //' | sort -u | tr '\n' ' ')"
+    echo "$out" | grep -q "645 passed" && break
+  done
+  mkdir -p crates/axmos-db/tests
   cp $d/demo_seeded.rs crates/axmos-db/tests/demo_seeded.rs
   with=$(cargo test --offline --release -p axmosdb $feat --test demo_seeded 2>&1 | grep -E "^test result" | tail -1)
   git apply -R $d/patch.diff
